@@ -85,6 +85,16 @@ def t_shift(rng, cspec, dspec):
     if integer_times and rng.random() < 0.5:
         # integer times stay float32-exact up to 2**24: far translations must not matter either
         k = float(rng.choice([2 ** 17, -2 ** 18, 10 ** 6, 2 ** 20, -2 ** 21, 3 * 10 ** 5]))
+        top = max(abs(x) for us in cspec["ann"].values() for u in us for x in u[:2])
+        if top < 2 ** 19 and rng.random() < 0.5:
+            # ... up to the last integers float32 holds exactly (every time and every difference stays exact there; a
+            # kernel that adds two times instead of subtracting them does not)
+            k = float(rng.choice([2 ** 23 + 1, 9000001, 12345678, 16000000, -(2 ** 23) - 5, -16000000]))
+    eighths = all(float(x * 8).is_integer() for us in cspec["ann"].values() for u in us for x in u[:2])
+    if not integer_times and eighths and rng.random() < 0.5:
+        top = max(abs(x) for us in cspec["ann"].values() for u in us for x in u[:2])
+        if top < 2 ** 19:
+            k = float(rng.choice([2 ** 20, 2 ** 20 + 2 ** 19 + 3, -(2 ** 20) - 77]))     # 1/8 grid: exact below 2**21
     return {"ann": {a: [[s + k, e + k, l] for s, e, l in us] for a, us in cspec["ann"].items()},
             "family": cspec.get("family")}, dspec, 1.0, {"shift": k}
 
@@ -198,6 +208,16 @@ def run(ctx):
         ctx.begin_case(case)
         ctx.observe("transform", "annotators(dense 3x15 block)")
         check_case(ctx, case)
+    # heavy-tailed durations under annotator renaming: which annotator comes first alphabetically must not decide which
+    # far-but-long partner units are considered
+    for i in range(ctx.scale(60, 1500)):
+        n = rng.choice([2, 2, 3])
+        cspec = cases.gen_continuum(rng, n_annot=n, sizes=[rng.randint(4, 12) if n == 2 else rng.randint(3, 6) for _ in range(n)],
+                                    labels=cases.LABELS_SMALL, family="heavytail")
+        case = {"continuum": cspec, "dissim": dense_d[i % 2], "transform": "annotators", "family_exact": True, "t_seed": rng.randrange(2 ** 31)}
+        ctx.begin_case(case)
+        ctx.observe("transform", "annotators(heavy-tailed block)")
+        check_case(ctx, case)
     for i in range(ctx.scale(150, 5000)):
         if ctx.out_of_time():
             break
@@ -205,7 +225,7 @@ def run(ctx):
         labels = cases.dissim_labels(dspec) or cases.LABELS_SMALL
         n = rng.choice([2, 2, 3, 3, 4, 5])
         exact = rng.random() < 0.7
-        fam = rng.choice(["dyadic", "grid", "touching", "longoverlap", "tiny", "mixeddur"]) if exact else rng.choice(["generic", "nested", "dense", "dense"])
+        fam = rng.choice(["dyadic", "grid", "touching", "longoverlap", "tiny", "mixeddur", "heavytail", "heavytail"]) if exact else rng.choice(["generic", "nested", "dense", "dense"])
         big = rng.random() < 0.35
         mx = MAXU[n] if big else max(2, MAXU[n] // 3)
         if fam == "dense":       # dense overlaps, >= 3 annotators: the solver has to branch, path-dependent early stops show
